@@ -43,6 +43,9 @@ class HistoryProfile(Profile):
       sim.count("op." + n)
     if out.ok is False and ev["k"] == "bundle":
       sim.count("probe.bundle_rejected")
+      # which kind of refusal: the engine's own checks (ValueError and friends) or a failure
+      # somewhere inside it
+      sim.count("probe.bundle_rejected_with_" + str(out.error).split(" ", 1)[0].split(":")[0][:30])
     self.check(sim, out, st)
     return out
 
